@@ -226,9 +226,31 @@ func (set *TemplateSet) FromBytes(tpl []byte) (*Template, error) {
 	return newTemplateString(set, tpl)
 }
 
+// Templates that include, extend or import each other in a circle (or
+// themselves) would load one another forever.
+const maxTemplateNesting = 1000
+
 // FromFile loads a template from a filename and returns a Template instance.
 func (set *TemplateSet) FromFile(filename string) (*Template, error) {
+	return set.fromFileNested(nil, filename)
+}
+
+// fromFileNested is FromFile for a template that is referred to by another
+// one (include, extends, import, ssi): it keeps track of the nesting depth.
+func (set *TemplateSet) fromFileNested(referrer *Template, filename string) (*Template, error) {
 	atomic.StoreUint32(&set.firstTemplateCreated, 1)
+
+	nesting := 0
+	if referrer != nil {
+		nesting = referrer.nesting + 1
+	}
+	if nesting > maxTemplateNesting {
+		return nil, &Error{
+			Filename:  filename,
+			Sender:    "templateset",
+			OrigError: fmt.Errorf("maximum template nesting depth reached (max is %d); do templates include or extend each other in a circle?", maxTemplateNesting),
+		}
+	}
 
 	_, _, fd, err := set.resolveTemplate(nil, filename)
 	if err != nil {
@@ -247,7 +269,7 @@ func (set *TemplateSet) FromFile(filename string) (*Template, error) {
 		}
 	}
 
-	return newTemplate(set, filename, false, buf)
+	return newNestedTemplate(set, filename, false, buf, nesting)
 }
 
 // RenderTemplateString is a shortcut and renders a template string directly.
